@@ -451,12 +451,19 @@ def run(tier):
                       "drv/iter.c maps return values to classes and logs doubles exactly, without judgement",
                       "tolerance 2^-48 times the magnitude of the operands is taken as 'within floating-point rounding'",
                       "the exhaustive model is bounded (counts 0..3, MaxInst instances); beyond it coverage is by the seeded runs"]
+    # extension X19: file-backed and template sources, consumers, fills, value stores (checks/x19_values.py, docs/X19_values.md)
+    import x19_values
+    if x19_values.enabled():
+        x19_values.run_part(ck, tier)
     return ck.finish()
 
 
 def replay(path):
     d = json.load(open(path))
     det = d["detail"]
+    if det.get("x19"):
+        import x19_values
+        return x19_values.replay(det, path)
     beh = det.get("behaviour")
     if not beh:
         print(json.dumps(det, indent=1)[:4000])
